@@ -90,6 +90,10 @@ def run(ctx):
         idt = [None, None, 'i2', None, None, None, 'u2', None][n % 8]
         ikw = {} if idt is None else ({'int_dtype': idt, 'second': False} if idt == 'i2' else
                                       {'int_dtype': idt, 'second': False, 'up': False, 'positive': 'attr'})
+        if idt is None and n % 5 == 3:
+            # an unlabelled axis of heights about a datum inside the column: most values on one side of zero, their mean on the other
+            ikw = {'positive': 'none', 'crossing': True, 'n': rng.randint(3, 5)}
+            ctx.count('axis crossing zero, unlabelled')
         ds, sp = gen.add_depth(rng, ds, dim='k', name=nm1, second_name=nm2, **ikw)
         ctx.count(f'depth dtype:{idt or "float64"}')
         dim = sp['dim']
@@ -247,3 +251,30 @@ def run(ctx):
         if o1 != m1 or o2 != m2:
             ctx.report('correspondence', f'model Depth.normalize and implementation differ: impl {o1} / {o2} model {m1} / {m2}',
                        case, found_input=False)
+    # ---- a depth coordinate that varies along a second dimension (a depth per record and layer): the request cannot be met
+    # for it layer by layer; either the call is refused or every depth coordinate comes back in the requested convention -
+    # never some of them converted and others left as they were
+    for trial in range(4 if quick else 16):
+        d = gen.any_dataset(rng, rng.choice(['cf1d', 'cf2d', 'ugrid']))
+        up = trial % 2 == 0
+        ds, sp = gen.add_depth(rng, d.ds, dim='k', positive='attr', second=False, up=up, bounds=False)
+        nm = sp['coords'][0]['name']
+        base = numpy.asarray(ds[nm].values, dtype='f8')
+        ds = ds.assign_coords(layer_depth=xarray.DataArray(numpy.stack([base, base * 1.5]), dims=['record', 'k'],
+                                                           attrs={'positive': 'up' if up else 'down'}))
+        want_down = up          # ask for the other convention
+        case = {'label': d.spec['label'], 'depth coordinates': [nm, 'layer_depth (record, k)'], 'stored positive': 'up' if up else 'down',
+                'positive_down': want_down}
+        ctx.case((d.spec['label'], 'two-dimensional depth coordinate', up), True)
+        ctx.count('two-dimensional depth coordinate')
+        with warnings.catch_warnings():
+            warnings.simplefilter('ignore')
+            r = attempt(lambda: ds.ems.normalize_depth_variables(positive_down=want_down))
+        if r[0] != 'ok':
+            continue
+        left = [str(c) for c in (nm, 'layer_depth')
+                if str(r[1][c].attrs.get('positive', '')).lower() != ('down' if want_down else 'up')
+                or not numpy.array_equal(numpy.asarray(r[1][c].values), -numpy.asarray(ds[c].values))]
+        if left and len(left) < 2:
+            ctx.report('property', f'normalising to positive {"down" if want_down else "up"} was accepted and converted only some of the '
+                       f'depth coordinates: {left} still {"up" if up else "down"}', case)
